@@ -35,29 +35,6 @@ func c03helpers(p *core.Prog) []*ssa.Function {
 	return out
 }
 
-func c03helpersAll(p *core.Prog) []*ssa.Function {
-	var out []*ssa.Function
-	for _, f := range p.Funcs {
-		if f.Parent() != nil || f.Signature.Recv() != nil || f.Pkg != p.Fpgo || f.Object() == nil || !f.Object().Exported() {
-			continue
-		}
-		if !strings.HasSuffix(p.Fset.Position(f.Pos()).Filename, "/fp.go") {
-			continue
-		}
-		has := false
-		for _, prm := range f.Params {
-			switch prm.Type().Underlying().(type) {
-			case *types.Slice, *types.Map:
-				has = true
-			}
-		}
-		if has {
-			out = append(out, f)
-		}
-	}
-	return out
-}
-
 // dependsOnIntParam: v's expression tree reaches an integer-typed parameter.
 func dependsOnIntParam(v ssa.Value, depth int) bool {
 	if v == nil || depth > 8 {
